@@ -10,6 +10,10 @@ drv_codec c11 : script lines
   (all writes in order with the model writers; then the matching read calls in order)
   second form:  range32 <block>  →  crc=<8 hex>   CRC-32 over the model's observations of the 2^16 int32 patterns
   block*65536 .. block*65536+65535 (fixed + 7-bit write, read back); see harness/cmd/c11/range.go
+  third form:   conc <R> | body || body ...  →  obs || obs ... || conc=ok   (each body as a seq line, without the alias part)
+  fourth form:  giant <B|S> <n> <seed>  →  expected prefix / lengths / CRC of a record of n ≥ 2^28 bytes, computed from the
+  specification (leb128 n) and the payload formula without materialising the list (justified by C11_wire_bytes and
+  C11_roundtrip_bytes); see harness/cmd/c11/conc.go
 
 drv_codec c12 : script lines
     <hex input> | [@k ]<op> ; [@k ]<op> ; ...
@@ -141,9 +145,58 @@ def renderC11 (vals : List Val) : String :=
     -- the model has value semantics: values kept by the caller cannot change, inputs cannot be captured
     joinSp (["bytes=" ++ hexOf bs, "|"] ++ items ++ ["|", s!"len={bs.length}", s!"pos={final}", "|", "alias=ok"])
 
+/-- observation of one sequence without the alias part (also one body of a `conc` line) -/
+def renderObs (vals : List Val) : String :=
+  let r := renderC11 vals
+  if r.endsWith " | alias=ok" then (r.dropEnd 11).toString else r
+
+/-- `conc <R> | body || body || ...`: the model is sequential and has no shared state between streams: every body gives
+    its own observation, and running the bodies at the same time cannot change any of them -/
+def renderConc (rest : String) : String :=
+  let bodies := (rest.splitOn "||").map (fun b => (b.splitOn ";").map (fun s => s.trimAscii.toString) |>.filter (· ≠ ""))
+    |>.filter (fun b => !b.isEmpty)
+  match parseAll? (fun b => parseAll? parseVal? b) bodies with
+  | none => "bad-op"
+  | some vss => " || ".intercalate (vss.map renderObs ++ ["conc=ok"])
+
+/-! giant records (`giant <B|S> <n> <seed>`, see harness/cmd/c11/conc.go). The list of n ≥ 2^28 bytes is NOT materialised:
+    by `C11_wire_bytes` the writer's output is `leb128 n ++ data`, by `C11_roundtrip_bytes` the read-back is `data` and the
+    position right behind it (n < 2^31), so the expected observation is computed from the specification's `leb128 n`, the
+    lengths, and a CRC-32 streamed over the payload formula. -/
+@[inline] def payByte (j seed : UInt64) : UInt8 := ((j * 0x9E3779B1 + seed) >>> 16).toUInt8
+
+@[inline] def crcU8 (t : Array UInt32) (crc : UInt32) (b : UInt8) : UInt32 :=
+  t[((crc ^^^ b.toUInt32) &&& 0xff).toNat]! ^^^ (crc >>> 8)
+
+def giantCrc (t : Array UInt32) (n : Nat) (seed : UInt64) : UInt32 := Id.run do
+  let block : ByteArray := ByteArray.mk ((Array.range 65536).map fun j => payByte j.toUInt64 seed)
+  let mut crc : UInt32 := 0xFFFFFFFF
+  for i in [0:n] do
+    crc := crcU8 t crc (block.get! (i % 65536))
+  return crc ^^^ 0xFFFFFFFF
+
+def renderGiant (n : Nat) (seed : UInt64) : String :=
+  let pre := Got.Spec.Codec.leb128 n
+  let k := pre.length
+  let head := (pre ++ (List.range 5).map (fun j => BitVec.ofNat 8 (payByte j.toUInt64 seed).toNat)).take 5
+  let crc := hex8 (giantCrc crcTable n seed).toNat
+  let total := 1 + k + n + 2
+  s!"head={hexOf head} len={total} crc={crc} | y:a5@1 rlen={n} rcrc={crc} pos={1 + k + n} next=-2@{total}"
+
 def stepC11 (_ : Unit) (line : String) : Unit × String :=
   if line.trimAscii.isEmpty then ((), "") else
-  if line.startsWith "range32 " then
+  if line.startsWith "conc " then
+    match line.splitOn " | " with
+    | _ :: rest => ((), renderConc (" | ".intercalate rest))
+    | [] => ((), "bad-op")
+  else if line.startsWith "giant " then
+    match words line with
+    | ["giant", _, n, seed] =>
+      match parseNat? n, parseNat? seed with
+      | some n, some seed => if n < 2 ^ 31 ∧ 16 ≤ n then ((), renderGiant n seed.toUInt64) else ((), "bad-op")
+      | _, _ => ((), "bad-op")
+    | _ => ((), "bad-op")
+  else if line.startsWith "range32 " then
     match parseNat? (line.drop 8).trimAscii.toString with
     | some b => if b < 65536 then ((), "crc=" ++ hex8 (rangeBlock crcTable b).toNat) else ((), "bad-op")
     | none => ((), "bad-op")
